@@ -12,6 +12,9 @@ LEVEL = {
  "C04": ("proof", "Lean: characterisation of absence in both modes and the Default > Required > Optional decision table for primitives, slices and pointers; lifted to every depth by the refinement theorem. Tie: S-engine correspondence on required/not_nil issues, destination and the tests-ran log.", "§7 C04"),
  "C05": ("proof", "Lean: local catch laws (no issue; destination = catch value exactly on failure, parsed value otherwise) and confinement as compositionality over one-hole contexts, for the engine with flags on the shared child context under the regenerated facts, for all visit orders. Tie: S-engine (catch-biased) correspondence; reverting a loop reset breaks `facts_ok` and yields concrete failing inputs.", "§7 C05"),
  "C09": ("proof", "Lean: visit order is a permutation of the declared keys for every oracle; engine = spec for every oracle; the FULL statement is proved false by witness (known finding D19), so the claim is partial. Direct oracle: every case re-run 12x with permuted insertion orders on the real code; D19/D25 are reported as KNOWN-FINDING, any other variation is a violation.", "§7 C09"),
+ "C10": ("proof", "Lean: for EVERY issue sequence the map built by ErrsMap.Add files each issue exactly once under the key of its path ($root for the empty path) in arrival order and $first holds exactly the first one (invariant by induction); render = documented join grammar; tag priority; IssuePath override; sanitizers. Partial: tag priority below depth 1 is known finding D17. Tie: S-path on the real PathBuilder/ErrsMap/Sanitize helpers + S-engine paths.", "§7 C10"),
+ "C11": ("proof", "Lean: catalogue completeness by kernel `decide` over the REGENERATED catalogue (every built-in test dumped from the compiled library) and language tables: non-empty template, every placeholder bound, code and type present — a finite quantifier checked exhaustively; precedence theorems. Tie: S-msg (exhaustive catalogue x 7 formatter levels x test message) and S-engine/fmt.", "§7 C11"),
+ "C20": ("proof", "Lean: every built-in predicate's executable model proved equal to an independently stated specification (inclusive len comparisons, order, membership, prefix/suffix/infix, ASCII classes with range form = set form, instants). Partial: Email/UUID regex vs grammar recogniser is validated exhaustively on short strings, not proved. Tie: S-preds (exhaustive boundary grid) on the real tests.", "§7 C20"),
  "C12": ("proof", "Lean: event-log laws (tests once in order with the node's value; PostTransforms in order, prefix up to first error, one issue, gated on no issue, not swallowed by Catch; custom functions) + log refinement. Tie: S-engine correspondence on the full callback log recorded by instrumented callbacks.", "§7 C12"),
  "C13": ("proof", "Lean: node-level agreement of Parse and Validate on present, non-zero values (prim/ptr/custom, same field keys); partial: the whole-tree statement is validated, not proved. Direct oracle: Validate(&v) vs Parse(toMap(v), &fresh) on fully populated values of random schemas on the real code.", "§7 C13"),
  "C18": ("proof", "Lean: exact-arithmetic theorems about the numeric coercers (atoi range, float->int = trunc and in range, NaN/Inf rejected, Int32 range and same number, Float32 never overflows to Inf) incl. the named examples. Tie: S-coerce boundary grid, model = implementation, plus a math/big exact oracle on the real code.", "§7 C18"),
